@@ -126,14 +126,27 @@ def run_items(mdl, items):
 class ScriptedR(nn.Module):
   body: tuple = ()
   wrap: str = 'none'      # root only: run the whole body inside nn.cond / nn.switch / nn.while_loop (apply only)
+  sel: int = 0            # which predicate / index rendering the wrap uses
 
   @nn.compact
   def __call__(self):
+    def branch(mark):      # every branch runs the body; all but the expected one leave a mark in the accumulator
+      def fn(m):
+        acc, obs = run_items(m, self.body)
+        return acc + jnp.asarray(mark, jnp.uint32), obs
+      return fn
     if self.wrap == 'cond':
-      return nn.cond(jnp.asarray(True), lambda m: run_items(m, self.body), lambda m: run_items(m, self.body), self)
+      pred = COND_PREDS[self.sel % len(COND_PREDS)]()
+      true_mark, false_mark = (0, 977) if bool(pred) else (977, 0)      # the equivalent Python `if pred:` picks by truthiness
+      return nn.cond(pred, branch(true_mark), branch(false_mark), self)
     if self.wrap == 'switch':
-      return nn.switch(jnp.asarray(2), [lambda m: run_items(m, self.body)] * 3, self)
+      i = self.sel % 3
+      return nn.switch(jnp.asarray(i), [branch(0 if j == i else 977 + j) for j in range(3)], self)
     return run_items(self, self.body)
+
+
+COND_PREDS = [lambda: jnp.asarray(True), lambda: jnp.asarray(False), lambda: True, lambda: False, lambda: -1, lambda: jnp.int32(-3),
+              lambda: jnp.asarray(2), lambda: -0.25, lambda: 0, lambda: jnp.float32(0.0)]
 
 
 class MA(ScriptedR):
